@@ -118,7 +118,10 @@ def decide(check, crate, oid, setup, post, replay=None, rb=None, unwind=8, enums
         return None
     t0 = time.time()
     ex = crate.exec(enums=enums, models=models, unwind=unwind, timeout_ms=timeout_ms)
-    ex.deadline = time.time() + budget_s
+    # the thorough tier explores larger bounds: its per-obligation wall-clock budget is four times the quick one (a loaded machine must
+    # not turn a deeper exploration into an inconclusive verdict); VERIF_BUDGET_SCALE overrides
+    scale = float(os.environ.get("VERIF_BUDGET_SCALE", "4" if getattr(check, "tier", "quick") == "thorough" else "1"))
+    ex.deadline = time.time() + budget_s * scale
     if merge:
         import re as _re
         ex.merge_pat = _re.compile(merge)
